@@ -4,7 +4,45 @@ from .attr_common import run_attr_property, replay_attr
 DEPS = {"C20": ["AttrThms.vo"], "C09": ["AttrThms.vo"], "C10": ["Jordan.vo", "AttrThms.vo", "AttrThms2.vo"], "C11": ["AttrThms.vo", "gen/KernelsGen.vo"], "C06": ["AttrThms.vo"]}
 
 
+def monte_carlo(ck):
+    """Gaussian data, non-overlapping segments: reported deviations vs the spread of the estimates over independent realisations.
+    Acceptance band = 6 sigma of the sampling error of a standard deviation estimated from R realisations, so the seed cannot cause an alarm."""
+    import numpy as np
+    from speckit.analysis import SpectrumAnalyzer
+    R = 80 if ck.tier == "quick" else 400
+    band = 6.0 / np.sqrt(2.0 * (R - 1))
+    lo, hi = 1.0 / (1.0 + band) - 0.05, 1.0 + band + 0.05
+    worst = {}
+    for nseg in ([16] if ck.tier == "quick" else [8, 32, 128]):
+        for noise in ([0.3, 1.5] if ck.tier == "quick" else [0.1, 0.3, 1.0, 3.0]):
+            L = 64; N = L * nseg; d = 2
+            g = np.random.default_rng(ck.rng.randint(0, 2 ** 31))
+            est = {"Gxx": [], "coh": [], "H": [], "Gxy": []}; rep = {"Gxx": [], "coh": [], "H": [], "Gxy": []}
+            f0 = 9.3 / L
+            for _ in range(R):
+                x = g.standard_normal(N); y = np.roll(x, d) + noise * g.standard_normal(N)
+                r = SpectrumAnalyzer(np.vstack([x, y]), 1.0, olap=0.0, win="hann", order=-1).compute_single_bin(f0, L=L)
+                est["Gxx"].append(float(r.Gxx[0])); rep["Gxx"].append(float(r.Gxx_dev[0]))
+                est["coh"].append(float(r.coh[0])); rep["coh"].append(float(r.coh_dev[0]))
+                est["H"].append(abs(complex(r.Hxy[0]))); rep["H"].append(float(r.Hxy_dev[0]))
+                est["Gxy"].append(complex(r.Gxy[0])); rep["Gxy"].append(float(r.Gxy_dev[0]))
+            for k in est:
+                obs = float(np.sqrt(np.mean(np.abs(np.array(est[k]) - np.mean(est[k])) ** 2)))
+                pred = float(np.sqrt(np.mean(np.array(rep[k]) ** 2)))
+                ratio = pred / obs
+                worst[k] = max(worst.get(k, 1.0), max(ratio, 1 / ratio))
+                # asymptotic formulas: allow their known small-sample bias on top of the statistical band
+                slack = 1.0 + 4.0 / nseg
+                if not (lo / slack <= ratio <= hi * slack):
+                    ck.violation("%s: reported deviation %.4g vs observed spread %.4g over %d realisations (ratio %.2f, %d segments, noise %.1f)" % (k, pred, obs, R, ratio, nseg, noise),
+                                 dict(quantity=k, nseg=nseg, noise=noise, R=R, L=L, delay=d), tag="montecarlo:" + k)
+    ck.cov["monte_carlo_worst_ratio"] = worst
+    ck.cov["monte_carlo_realisations"] = R
+
+
 def extra(ck):
+    if "C10" == "C10":
+        monte_carlo(ck)
     if "C10" == "C06":
         bad, worst = O.sinusoid_calibration(ck.rng, 8 if ck.tier == "quick" else 80)
         for tag, what, inp in bad:
